@@ -1065,6 +1065,23 @@ class Exec(ExprMixin, CallMixin):
                 self.frames.pop()
             c.locals = saved_locals
 
+    def call_contract_values(self, ct: Contract, self_sv, values: list, node=None) -> SV:
+        """Apply a contract to already evaluated arguments (operators that dispatch to __contains__/__getitem__)."""
+        names = []
+        for i, v in enumerate(values):
+            nm = f"__arg{i}"
+            self.ctx.locals[nm] = SV(v.ty, v.t, None, v.py)
+            names.append(nm)
+        call = ast.Call(func=ast.Name(id="__op", ctx=ast.Load()), args=[ast.Name(id=n, ctx=ast.Load()) for n in names], keywords=[])
+        if node is not None:
+            ast.copy_location(call, node)
+        ast.fix_missing_locations(call)
+        try:
+            return self.call_contract(ct, self_sv, call)
+        finally:
+            for n in names:
+                self.ctx.locals.pop(n, None)
+
     def modifies_keys(self, ct: Contract, bound) -> list[tuple[str, object]]:
         """[(heap key | 'global:NAME', ref term or None for all objects)]"""
         out = []
